@@ -24,6 +24,10 @@ CONSTANTS Depth,        \* simulation: number of steps of a recorded behaviour
           Triples,      \* the alternatives for the three content versions in play
           SplitSizes,   \* sizes of the version sets of the client-side cases
           AllCfgs,      \* later callers use any cfg (else: the first caller's, or one differing in one respect)
+          IsRegSet,     \* is_register settings of the first caller (and of later ones when AllCfgs)
+          EhSet,        \* expected-holder settings of the first caller (and of later ones when AllCfgs)
+          MaxCancel,    \* callers that give up (drop their receiving end) while waiting
+          MaxRepliesC,  \* bound on the number of FoundRecord events of a behaviour in which a caller gives up
           Record,       \* TRUE: keep the history (simulation); FALSE: exhaustive checking
           KnownMask     \* ids of the known findings that are listed
 
@@ -32,11 +36,20 @@ vars == <<st, g, uni, cnt, bad, hist, n>>
 
 FalsifiedBy(x) == {v.clause : v \in {y \in Verdicts(x) : y.kf \notin KnownMask}}
 
+\* Scenario classes that are switched on by an environment variable (default off):
+\*   VERIF_ENABLE_C05_CANCEL   simulated behaviours (replayed on the real code) contain Cancel steps
+\*   VERIF_ENABLE_C05_FOREIGN  client-side split cases contain a register of another base / a foreign owner's scratchpad
+EnvOn(name) == name \in DOMAIN IOEnv /\ IOEnv[name] = "1"
+CancelOn == EnvOn("VERIF_ENABLE_C05_CANCEL")
+ForeignOn == EnvOn("VERIF_ENABLE_C05_FOREIGN")
+
 Base(ev) == [ev |-> ev, s |-> st, g |-> g, g2 |-> 0, caller |-> 0, key |-> 0, quorum |-> "One", target |-> 0,
+             isreg |-> FALSE, eh |-> 0, txnbytes |-> FALSE,
              q |-> 0, p |-> 0, c |-> 0, k |-> 0, dl |-> {}, pq |-> {}, att |-> 0, res |-> "",
              vs |-> {}, runs |-> <<>>, ans |-> <<>>, natt |-> 0, o |-> 0, used |-> 0]
 
 Json1(x) == [ev |-> x.ev, caller |-> x.caller, key |-> x.key, quorum |-> x.quorum, target |-> x.target,
+             isreg |-> x.isreg, eh |-> x.eh,
              q |-> x.q, p |-> x.p, c |-> x.c, k |-> x.k, att |-> x.att, dl |-> x.dl, pq |-> x.pq]
 
 Init == /\ st = Init0 /\ g = Ghost0 /\ uni \in Triples /\ cnt = [found |-> 0, dup |-> 0, foreign |-> 0, late |-> 0]
@@ -63,16 +76,28 @@ Step(x0, cnt2) ==
 Cfg1 == g.cfg[1]
 OtherQuorums == IF AllCfgs THEN QuorumSet \ {Cfg1.quorum}
                 ELSE {IF Cfg1.quorum = "One" THEN "All" ELSE "One"} \cup (IF Cfg1.quorum = "N2" THEN {"Maj"} ELSE {"N2"})
-LaterCfgs == IF AllCfgs THEN {[key |-> k, quorum |-> qm, target |-> tg] : k \in Key, qm \in QuorumSet, tg \in {0} \cup uni}
+LaterCfgs == IF AllCfgs THEN {[key |-> k, quorum |-> qm, target |-> tg, isreg |-> ir, eh |-> eh] :
+                                  k \in Key, qm \in QuorumSet, tg \in {0} \cup uni, ir \in IsRegSet, eh \in EhSet}
              ELSE {Cfg1} \cup {[Cfg1 EXCEPT !.quorum = qm] : qm \in OtherQuorums}
+                  \cup {[Cfg1 EXCEPT !.isreg = ~@]}
+                  \* (the expected holders do not occur in the model at all: varied in simulation and by the driver)
                   \cup {[Cfg1 EXCEPT !.target = IF Cfg1.target = 0 THEN CHOOSE c \in uni : \A d \in uni : c <= d ELSE 0]}
                   \cup {[Cfg1 EXCEPT !.key = k] : k \in Key \ {Cfg1.key}}
 DoCall == LET cl == Cardinality(g.called) + 1 IN
           /\ cl \in Caller
           /\ (cl > 1 => cnt.found <= MaxReplies2)      \* behaviours with several callers live within the smaller budget
-          /\ \E cf \in (IF cl = 1 THEN {[key |-> 1, quorum |-> qm, target |-> tg] : qm \in QuorumSet, tg \in {0} \cup uni}
+          /\ \E cf \in (IF cl = 1 THEN {[key |-> 1, quorum |-> qm, target |-> tg, isreg |-> ir, eh |-> eh] :
+                                            qm \in QuorumSet, tg \in {0} \cup uni, ir \in IsRegSet, eh \in EhSet}
                                    ELSE LaterCfgs) :
-                Step([Base("Call") EXCEPT !.caller = cl, !.key = cf.key, !.quorum = cf.quorum, !.target = cf.target], cnt)
+                Step([Base("Call") EXCEPT !.caller = cl, !.key = cf.key, !.quorum = cf.quorum, !.target = cf.target,
+                                          !.isreg = cf.isreg, !.eh = cf.eh], cnt)
+
+\* a waiting caller gives up.  (Exhaustive checking always explores it; recorded behaviours, which are
+\* replayed on the real code, contain it only when the scenario class is switched on.)
+DoCancel == /\ (~Record \/ CancelOn)
+            /\ Cardinality(g.cancelled) < MaxCancel
+            /\ cnt.found <= MaxRepliesC
+            /\ \E cl \in g.called \ (g.got \cup g.cancelled) : Step([Base("Cancel") EXCEPT !.caller = cl], cnt)
 
 \* peers are interchangeable: a peer that has not answered yet is the lowest unused id
 UsedPeers == UNION {{r.p : r \in g.replies[q]} : q \in Query}
@@ -82,6 +107,7 @@ NextPeers == UsedPeers \cup (IF \E p \in Peer : p \notin UsedPeers
 LateOk(q) == IsLive(st, q) \/ cnt.late < MaxLate
 LateInc(q) == IF IsLive(st, q) THEN 0 ELSE 1
 DoFound == /\ cnt.found < (IF Cardinality(g.called) > 1 THEN MaxReplies2 ELSE MaxReplies)
+           /\ (g.cancelled # {} => cnt.found < MaxRepliesC)
            /\ \E q \in 1..Len(st.qs), p \in NextPeers, c \in uni, k \in Key :
                 LET fk == IF k = st.qs[q].key THEN 0 ELSE 1
                     dp == IF [p |-> p, c |-> c, k |-> k] \in g.replies[q] THEN 1 ELSE 0 IN
@@ -100,7 +126,8 @@ DoQuorumFailed == Term("QuorumFailed")
 DoTimeout == Term("Timeout")
 
 \* ---- client side: every version set of the listed sizes, every iteration order of the result map
-SplitSets == {S \in SUBSET CId : Cardinality(S) \in SplitSizes}
+SplitUniverse == IF ForeignOn THEN CId ELSE CId \ Foreign
+SplitSets == {S \in SUBSET SplitUniverse : Cardinality(S) \in SplitSizes}
 SplitTargets(S) == IF Cardinality(S) = 2 THEN {0} \cup S ELSE {0}
 SplitStep(S, tg) == LET perms == SetToSeq(SetToSeqs(S)) IN
                     [Base("SplitCase") EXCEPT !.key = 1, !.target = tg, !.vs = S,
@@ -129,7 +156,7 @@ DoEnd == /\ Record /\ n < Depth /\ n > 0 /\ Live(st) = {} /\ Cardinality(g.calle
          /\ n' = Depth
          /\ UNCHANGED <<st, g, uni, cnt, bad, hist>>
 
-Next == DoCall \/ DoFound \/ DoFinished \/ DoNotFound \/ DoQuorumFailed \/ DoTimeout \/ DoSplit \/ DoClientRetry
+Next == DoCall \/ DoCancel \/ DoFound \/ DoFinished \/ DoNotFound \/ DoQuorumFailed \/ DoTimeout \/ DoSplit \/ DoClientRetry
         \/ DoEnd
 Spec == Init /\ [][Next]_vars
 
